@@ -3,6 +3,8 @@ mod lua_member_feature;
 mod lua_member_item;
 mod lua_member_owner;
 mod lua_owner_members;
+#[cfg(feature = "verif")]
+mod verif;
 
 use hashbrown::{HashMap, HashSet};
 
